@@ -39,7 +39,8 @@ RULE = ('bounded-exhaustive block: every (rows, cols) in 2..40 x 2..40 with ever
         '(file and HDUList input, float32/float64 and integer pixel types int16/int32 (a third of the block; exactly linear '
         'integer images from node values that are multiples of factor**2), 3-D/4-D degenerate axes, fully random and bilinear images); headers '
         'rotate through SIN/TAN/ZEA/ARC/STG, CDELT and CD form (CD: rotation-free, rotated by any angle, slightly rotated '
-        'and skewed, i.e. non-zero CD1_2/CD2_1), both signs, non-integer and off-image CRPIX; compressed '
+        'and skewed, i.e. non-zero CD1_2/CD2_1), both signs, non-integer and off-image CRPIX, a quarter with exact special CRPIX values per axis (1-f, 0, -f, 2-f, 1, '
+        '0.5, -0.5, -2.75, 1-2f, f, 1+f); compressed '
         'aux files through load_image_band, SourceFinder._load_aux_image and load_globals; BANE --compress through '
         'BANE.filter_image and the BANE command line (both products expanded by expand, load_image_band, SR6 -x and '
         'load_globals, headers judged against the image BANE was given); tall/narrow and wide/short images with the '
@@ -56,7 +57,8 @@ MIN_REACH = {'fits_tools:compress': 1, 'fits_tools:expand': 1, 'fits_tools:load_
              'source_finder:SourceFinder._load_aux_image': 1}
 MIN_COUNTERS = {
     'quick': {'roundtrips': 15000, 'roundtrips_file': 1000, 'nodes_checked': 100000, 'linear_cells_judged': 5000,
-              'residual_rows_and_cols': 3000, 'factor_gt_size': 500, 'aux_loads': 100, 'bane_compressed_runs': 4, 'bane_products_judged': 8, 'bane_cli_runs': 2,
+              'residual_rows_and_cols': 3000, 'factor_gt_size': 500, 'aux_loads': 100, 'crpix_special_values': 3000, 'crpix_equals_1_minus_factor': 400,
+              'crpix_equals_1_minus_factor_axis1': 150, 'crpix_equals_1_minus_factor_axis2': 150, 'bane_compressed_runs': 4, 'bane_products_judged': 8, 'bane_cli_runs': 2,
               'bane_pairs_through_load_globals': 2, 'tall_roundtrips': 60,
               'long_axis_gt_1024_factor_not_dividing_1024': 50, 'integer_pixel_roundtrips': 5000, 'integer_pixel_roundtrips_file': 300,
               'integer_linear_images_factor_not_power_of_2': 1500, 'cd_headers': 3000, 'cd_rotated': 1500, 'cd_skewed': 1500,
@@ -67,7 +69,8 @@ MIN_COUNTERS = {
                  'aux_loads': 400, 'integer_pixel_roundtrips': 15000, 'integer_pixel_roundtrips_file': 2000,
                  'integer_linear_images_factor_not_power_of_2': 5000, 'cd_headers': 8000, 'cd_rotated': 4000, 'cd_skewed': 4000,
                  'offdiagonal_cd_terms_compared': 15000, 'noninteger_crpix': 8000, 'negative_cdelt2': 3000,
-                 'sr6_runs': 100, 'bane_compressed_runs': 16, 'bane_products_judged': 32, 'bane_cli_runs': 8,
+                 'sr6_runs': 100, 'crpix_special_values': 9000, 'crpix_equals_1_minus_factor': 1200,
+                 'crpix_equals_1_minus_factor_axis1': 500, 'crpix_equals_1_minus_factor_axis2': 500, 'bane_compressed_runs': 16, 'bane_products_judged': 32, 'bane_cli_runs': 8,
                  'bane_pairs_through_load_globals': 8, 'tall_roundtrips': 300,
                  'long_axis_gt_1024_factor_not_dividing_1024': 250, 'long_axis_gt_4096': 40},
 }
@@ -81,7 +84,7 @@ PROJS = ('SIN', 'TAN', 'ZEA', 'ARC', 'STG')
 
 
 # ----------------------------------------------------------------------------- generators
-def header_for(idx, rows, cols, rng, allow_rot=True):
+def header_for(idx, rows, cols, rng, allow_rot=True, f=None):
     """a header whose form is chosen by the running index so that the exhaustive block covers every form"""
     proj = PROJS[idx % 5]
     use_cd = (idx // 5) % 2 == 1
@@ -99,6 +102,17 @@ def header_for(idx, rows, cols, rng, allow_rot=True):
         crpix = (rng.uniform(-50, cols + 50), rng.uniform(-50, rows + 50))        # full double mantissa
     else:
         crpix = (round(rng.uniform(-300, 300), 2), round(rng.uniform(-300, 300), 2))
+    special = None
+    if f is not None and (idx // 4) % 4 == 3:
+        # a quarter of the headers: exact special reference pixels, chosen per axis - values whose compressed or restored
+        # image is 0 or 1 (CRPIX = 1 - f compresses to exactly 0), far off the image, negative fractions
+        sp = [1.0 - f, 0.0, -float(f), 2.0 - f, 1.0, 0.5, -0.5, -2.75, 1.0 - 2 * f, 1.0 - f, float(f), 1.0 + f]
+        a, b = int(rng.integers(0, len(sp))), int(rng.integers(0, len(sp)))
+        if (idx // 16) % 3 == 0:
+            b = a if rng.random() < 0.5 else b
+        crpix = (sp[a], sp[b])
+        special = [crpix[0] == 1.0 - f, crpix[1] == 1.0 - f]
+        form = 4
     crval = (rng.uniform(0, 360), rng.uniform(-75, 75))
     h = wz.make_header(proj, crval, crpix, cd, (rows, cols), beam=(scale * 4, scale * 3, 10.0), use_cd=use_cd)
     # CD form: one third rotation-free, one third rotated by any angle, one third slightly rotated and skewed
@@ -123,7 +137,8 @@ def header_for(idx, rows, cols, rng, allow_rot=True):
                 # keep the diagonal terms away from 0 (relative keyword tolerances; BANE's pixel scale uses them)
                 h['CD1_1'] = float(cd[0] * 0.05)
                 h['CD2_2'] = float(cd[1] * 0.05)
-    return h, {'proj': proj, 'cd': use_cd, 'cd_form': rot, 'crpix_form': form, 'neg_cdelt2': s2 < 0,
+    return h, {'proj': proj, 'cd': use_cd, 'cd_form': rot, 'crpix_form': form, 'crpix': [float(crpix[0]), float(crpix[1])],
+               'crpix_is_1_minus_f': special, 'neg_cdelt2': s2 < 0,
                'nonint': any(float(c) != int(c) for c in crpix)}
 
 
@@ -369,7 +384,7 @@ def _compressed_wcs_info(o, orig_hdr, comp_hdr, rows, cols, f):
 
 def roundtrip(ft, fits, o, rng, rows, cols, f, idx, mode, tmp, linear=True, dtype=np.float32, extra_axes=0):
     """mode: 'mem' (HDUList in, HDUList out) or 'file' (file names in, outfile written and re-read)"""
-    hdr, hinfo = header_for(idx, rows, cols, rng)
+    hdr, hinfo = header_for(idx, rows, cols, rng, f=f)
     img, KL = make_image(rows, cols, f, rng, linear=linear, dtype=dtype)
     data_in = img.reshape((1,) * extra_axes + img.shape)
     if extra_axes:
@@ -467,6 +482,12 @@ def roundtrip(ft, fits, o, rng, rows, cols, f, idx, mode, tmp, linear=True, dtyp
             o.count('cd_offdiagonal_headers')
         if hinfo['nonint']:
             o.count('noninteger_crpix')
+        if hinfo['crpix_form'] == 4:
+            o.count('crpix_special_values')
+            if f > 1 and any(hinfo['crpix_is_1_minus_f']):
+                o.count('crpix_equals_1_minus_factor')
+                o.count('crpix_equals_1_minus_factor_axis1', int(hinfo['crpix_is_1_minus_f'][0]))
+                o.count('crpix_equals_1_minus_factor_axis2', int(hinfo['crpix_is_1_minus_f'][1]))
         if hinfo['neg_cdelt2']:
             o.count('negative_cdelt2')
         if extra_axes:
@@ -495,7 +516,7 @@ def aux_case(o, rng, rows, cols, f, idx, tmp):
     from astropy.io import fits
     from AegeanTools import fits_tools as ft
     from AegeanTools.source_finder import SourceFinder
-    hdr, hinfo = header_for(idx, rows, cols, rng)
+    hdr, hinfo = header_for(idx, rows, cols, rng, f=f)
     wit = {'rows': rows, 'cols': cols, 'factor': f, 'header': hinfo, 'kind': 'aux'}
     img = rng.normal(0, 1, (rows, cols)).astype(np.float32)
     bkg, _ = make_image(rows, cols, f, rng)
@@ -575,7 +596,8 @@ def sr6_case(o, rng, rows, cols, f, idx, tmp, variant):
     from astropy.io import fits
     from AegeanTools.CLI import SR6
     import logging
-    hdr, hinfo = header_for(idx, rows, cols, rng, allow_rot=(variant != 'default_factor'))
+    hdr, hinfo = header_for(idx, rows, cols, rng, allow_rot=(variant != 'default_factor'),
+                             f=(None if variant == 'default_factor' else f))
     if variant == 'default_factor':
         # factor = get_step_size(header) = ceil(4*sqrt(bmaj*bmin)/pixel scale); choose the beam to get f
         pix = np.sqrt(abs((hdr.get('CDELT1') or hdr.get('CD1_1')) * (hdr.get('CDELT2') or hdr.get('CD2_2'))))
@@ -651,7 +673,7 @@ def bane_case(o, rng, rows, cols, f, idx, tmp, variant='api'):
     from astropy.io import fits
     from AegeanTools import BANE, fits_tools as ft
     from AegeanTools.source_finder import SourceFinder
-    hdr, hinfo = header_for(idx, rows, cols, rng)
+    hdr, hinfo = header_for(idx, rows, cols, rng, f=f)
     wit = {'rows': rows, 'cols': cols, 'factor': f, 'mode': 'BANE --compress (%s)' % variant, 'header': hinfo}
     yy, xx = np.mgrid[0:rows, 0:cols]
     img = (rng.normal(0, 1, (rows, cols)) + 0.02 * yy - 0.01 * xx).astype(np.float32)
